@@ -20,7 +20,7 @@ NOT_DECIDED = "Which csp rules match a concrete request (C01-C03); the order of 
 
 
 def check(run):
-    for cfg in ("A", "B"):
+    for cfg in run.cfgs("A", "B"):
         F = run.facts(cfg)
         run.guard("C15.1.type-gate", cfg, lambda: rule_type_gate(run, F, cfg))
         run.guard("C15.3.set-algebra", cfg, lambda: rule_sets(run, F, cfg))
